@@ -90,14 +90,17 @@ def unit_compute(model, sizes, gamma_mode):
     return recs
 
 
-def unit_rate(model, sizes, vec, limit, use_t):
-    """the real rate() against rate_spec, symbolic rank/score values: every weak order is a path"""
+def unit_rate(model, sizes, vec, limit, use_t, history=False):
+    """the real rate() against rate_spec, symbolic rank/score values: every weak order is a path.
+    history: the same model instance has rated before - the same rating objects' stored snapshots (deep
+    copies: same ids, other values) and a game of other players - and must still return the published
+    update of the game at hand (a memo keyed by ids / names / too little would not)"""
     n = len(sizes)
     S = extract.Scratch(model)
     tmf = game.stub_tm_real(S)
     game.stub_phi_real(S)
     scale = 2 if model == "ThurstoneMostellerPart" else 1
-    shape = f"sizes={sizes},{vec},limit_sigma={limit},tau={'per-call' if use_t else 'model'}"
+    shape = f"sizes={sizes},{vec},limit_sigma={limit},tau={'per-call' if use_t else 'model'}" + (",after earlier calls" if history else "")
     fn = f"{model}.rate"
     ctx = Ctx("R", feas_timeout_ms=300)
     recs = []
@@ -118,6 +121,19 @@ def unit_rate(model, sizes, vec, limit, use_t):
             tau = ctx.real("t")
             ctx.assume(tau.t >= 0)
             kw["tau"] = tau
+        if history:
+            import copy as _copy
+            snap = _copy.deepcopy(teams)                  # stored snapshots: same ids and names
+            for i, t in enumerate(snap):
+                for j, p in enumerate(t):
+                    p.mu, p.sigma = ctx.real(f"hv_mu_{i}_{j}"), ctx.real(f"hv_sg_{i}_{j}")
+                    ctx.assume(p.sigma.t > 0)
+            others = game.mk_teams(ctx, S, (1, 1), tag="o")
+            h1 = call(m.rate, snap)
+            h2 = call(m.rate, others, ranks=[2, 1])
+            if h1[0] != "return" or h2[0] != "return":
+                recs.append(driver.rec(f"C01/{model}/rate/returns@{shape}", "refuted", "explorer", 0, fn=fn, shape=shape, note="an earlier call raised"))
+                return
         out = call(m.rate, teams, **kw)
         npaths[0] += 1
         order = None
@@ -151,6 +167,7 @@ def unit_rate(model, sizes, vec, limit, use_t):
             r, _, mdl, _ = check_sat(ctx.hyps(), timeout_ms=5000, use_cvc5=False, nlsat=False)
             md = model_to_dict(mdl) if mdl is not None else {}
             rp = _std_replay(model, sizes, None, "default", scale, limit=limit)
+            rp["history"] = bool(history)
             if vals is not None:
                 rp[vec] = [enc_model(md, f"r{i}") for i in range(n)]
             if use_t:
@@ -237,6 +254,7 @@ def units(tier):
         us += [("unit_compute", (m, (1,) * 6, "default")) for m in extract.MODELS]
     if tier == "quick":
         us += [("unit_rate", (m, (1,) * 6, "none", False, False)) for m in extract.MODELS]
+    us += [("unit_rate", (m, (2, 1), "ranks", False, False, True)) for m in extract.MODELS]
     return us
 
 
